@@ -31,6 +31,7 @@ class PartialProfile(Profile):
     int           : ``int(x)`` / ``float(x)`` on a non-constant -> ValueError
     dictkey       : ``V['k']`` on a listed variable unguarded by ``'k' in V`` -> KeyError
     decimal       : ``Decimal(x)`` -> decimal.InvalidOperation, TypeError, ValueError
+    decode        : ``x.decode(..)`` on non-constant bytes without ``errors=`` -> UnicodeDecodeError
     """
 
     def __init__(self, name: str, scope: dict[str, dict], len_facts=()):
@@ -207,6 +208,12 @@ class PartialProfile(Profile):
             key = prog.try_const(sub.slice, f.module, owner.cls, _NC) if not isinstance(sub.slice, ast.Slice) else _NC
             if (names is True or base in names) and isinstance(key, (str, int)) and not isinstance(key, bool):
                 yield "KeyError", self._key_guards(ctx, cfg, base, key), f"{base}[{key!r}]"
+        if "decode" in ops and isinstance(sub, ast.Call) and isinstance(sub.func, ast.Attribute) and sub.func.attr == "decode":
+            # bytes.decode() of peer data: UnicodeDecodeError (a ValueError) unless errors= is given
+            if not any(kw.arg == "errors" for kw in sub.keywords) and len(sub.args) < 2:
+                recv = prog.try_const(sub.func.value, f.module, owner.cls, _NC)
+                if recv is _NC:
+                    yield "UnicodeDecodeError", None, f"{_unparse(sub.func.value)}.decode()"
         if "decimal" in ops and isinstance(sub, ast.Call):
             d = dotted(sub.func)
             if d and prog.resolve_dotted(f.module, d) == "decimal.Decimal" and sub.args:
